@@ -81,6 +81,12 @@ def tiny_score(model):
     return -model.x
 
 
+def score_uint8(model):
+    """scores as they come out of image / count arrays: numpy unsigned 8-bit integers (arr.max(), arr[i])"""
+    import numpy as np
+    return np.uint8(model.score_value)
+
+
 def score_nested(model):
     """a score function that itself runs a (serial) search over another model - e.g. calibrating an inner parameter for every
     outer combination - before reporting the outer model's score: searches must not share state"""
@@ -139,6 +145,12 @@ def _run_case(case):
     cost = [max(0, min(int(c), 5)) for c in case.get("cost", [])] if int(case.get("processes", 1)) > 1 else []
     table = json.dumps({"nb": nb, "scores": combos, "complete_at": complete_at, "cost": cost, **({"dt": case["dt"]} if case.get("dt") is not None else {})})
     score_fn = score_nested if case.get("nested") else score_of
+    if case.get("npscore"):
+        import numpy as np
+        if case.get("float") or int(case["mode"]) > 1 or any(not (0 <= int(v) <= 255) for c in combos for v in c):
+            raise InvalidCase("numpy scores: minimum / maximum of small non-negative integers only")
+        score_fn = score_uint8
+        combos = [[np.uint8(v) for v in c] for c in combos]
     a_vals = list(range(na))
     params = {"a": a_vals if (na > 1 or case.get("a_list")) else 0, "table": table}
     if nb > 1 or case.get("b_list"):
@@ -178,7 +190,7 @@ def _run_case(case):
             want = scores[:reps]
             if list(res.get("records", ())) != want or [type(x) for x in res["records"]] != [type(x) for x in want]:
                 raise Violation("records", f"{tag}: combination {i} reports records {res.get('records')}, its repetitions scored {want}")
-            fr = [Fraction(x) for x in want]
+            fr = [Fraction(int(x)) if case.get("npscore") else Fraction(x) for x in want]
             n = len(fr)
             scale = sum(abs(x) for x in fr)
             if mode == ScoreMode.MIN:
@@ -193,7 +205,7 @@ def _run_case(case):
                 mu = sum(fr) / n
                 exact = sum((x - mu) ** 2 for x in fr) / (n - 1)
                 tol = exact + scale * scale
-            if "score" not in res or isinstance(res["score"], bool) or not isinstance(res["score"], (int, float, Fraction)):
+            if "score" not in res or isinstance(res["score"], bool) or not isinstance(res["score"], (int, float, Fraction) + ((__import__("numpy").integer,) if case.get("npscore") else ())):
                 raise Violation("aggregate", f"{tag}: combination {i} has no numeric score: {res.get('score')!r}")
             if tol == 0 or (not is_float and exact.denominator == 1):
                 ok = Fraction(res["score"]) == exact             # min/max, and integer-valued aggregates of integer scores: exact
@@ -220,6 +232,8 @@ def _run_case(case):
     best, results = call(1)
     first, aggs = verify(best, results, "serial")
     labels = {mode.name, "float" if is_float else "int", f"reps{reps}"}
+    if case.get("npscore"):
+        labels.add("numpy-uint8-scores")
     if case.get("nested"):
         labels.add("score-function-runs-a-nested-search")
     if case.get("dt") is not None:
@@ -275,6 +289,7 @@ def strategy(tier):
         n = na * nb
         is_float = draw(st.integers(0, 3)) == 0
         mode = draw(st.integers(0, 7))
+        npscore = False
         reps = draw(st.integers(1, 4))
         if mode >= 6:
             reps = max(reps, 2)
@@ -291,7 +306,12 @@ def strategy(tier):
             big = st.sampled_from([MAXSIZE, -MAXSIZE, MAXSIZE + 1, -MAXSIZE - 1, 4 * MAXSIZE, 8 * MAXSIZE, 12 * MAXSIZE,
                                    -4 * MAXSIZE, -8 * MAXSIZE, 2 ** 70, -2 ** 70, 2 ** 53 + 1, 2 ** 53 + 3, 10 ** 17 + 3,
                                    10 ** 17 + 1, -(2 ** 60) - 7, 10 ** 17 + 5])
-            kind = draw(st.integers(0, 7))
+            kind = draw(st.integers(0, 9))
+            if kind >= 8 and mode > 1 and draw(st.booleans()):
+                mode = mode % 2             # numpy scores are only generated for the minimum / maximum modes
+            npscore = kind >= 8 and mode in (0, 1)
+            if kind >= 8:
+                kind = 2
             if kind == 7 and mode not in (0, 1, 4, 5):
                 kind = 6
             if kind == 7:       # exact integers beyond the float range: minimum, maximum and sum of integers never leave the integers
@@ -306,6 +326,8 @@ def strategy(tier):
                 base = wone_of(big, st.integers(-5, 5))
             else:
                 base = wone_of(st.integers(-5, 5), st.integers(-5, 5), st.integers(-10 ** 6, 10 ** 6))
+            if npscore:
+                base = wone_of(st.integers(0, 7), st.just(0), st.sampled_from([255, 200, 128]))
         scores = [[draw(base) for _ in range(reps)] for _ in range(n)]
         if n >= 2 and draw(st.integers(0, 2)) == 0:       # plant a tie between two combinations
             i, j = draw(st.integers(0, n - 1)), draw(st.integers(0, n - 1))
@@ -314,7 +336,7 @@ def strategy(tier):
         complete_at = draw(st.sampled_from([0, 0, 1, 2, None]))
         max_ts = draw(st.sampled_from([None, 0, 1, 2, 3])) if complete_at is not None else draw(st.integers(0, 3))
         return {"na": na, "nb": nb, "float": is_float, "mode": mode, "reps": reps, "scores": scores, "processes": procs,
-                "plist": draw(st.sampled_from([False, True, True, 2])), "truthy": draw(st.integers(0, 5)) == 0, "a_list": draw(st.booleans()), "b_list": draw(st.booleans()),
+                "npscore": (not is_float) and npscore, "plist": draw(st.sampled_from([False, True, True, 2])), "truthy": draw(st.integers(0, 5)) == 0, "a_list": draw(st.booleans()), "b_list": draw(st.booleans()),
                 "complete_at": complete_at, "max_timesteps": max_ts,
                 "positional": draw(st.integers(0, 2)) == 0, "nested": draw(st.integers(0, 5)) == 0 and not large, "dt": draw(st.sampled_from([None, None, None, None, None, 0.25, 2, 100])),
                 "cost": [draw(st.sampled_from([0, 0, 1, 3])) for _ in range(n)] if procs > 1 else []}
@@ -331,6 +353,9 @@ def exhaustive(tier):
     base = {"nb": 1, "float": False, "reps": 2, "processes": 1, "plist": False, "a_list": True, "b_list": False,
             "complete_at": 0, "max_timesteps": None, "cost": []}
     pairs = list(itertools.product(vals, repeat=2))
+    for mode in (0, 1):            # numpy unsigned 8-bit scores: every table of three combinations over {0, 1, 200}
+        for combo in itertools.product((0, 1, 200), repeat=3):
+            yield dict(base, na=3, mode=mode, reps=1, npscore=True, scores=[[c] for c in combo])
     for mode in range(8):
         for combo in itertools.product(pairs, repeat=2):
             yield dict(base, na=2, mode=mode, scores=[list(c) for c in combo])
